@@ -185,6 +185,15 @@ def windows(core="F"):
                 a("%s 0 std %s+q%d,r%d" % (core, y, q, d))
                 a("%s 0 ld r%d,%s+q%d" % (core, d, y, q))
                 a("%s 0 st %s+q%d,r%d" % (core, y, q, d))
+    # relative operands: far targets, and targets a multiple of 2^16 / 2^32 away from a legal one (truncation before the range check)
+    for base in (0, 1, 63, 64, -64, -65, 2047, 2048, -2048, -2049):
+        for wrap in (0, 65536, -65536, 131072, 2 ** 32, -2 ** 32, 2 ** 31, 2 ** 15, -2 ** 15, 4096, -4096, 128, -128, 256):
+            for pc in (0, 5):
+                t = pc + 1 + base + wrap
+                for op in ("breq", "brne", "brid", "rjmp", "rcall"):
+                    a("%s %d %s e%d" % (core, pc, op, t))
+                a("%s %d brbs e2,e%d" % (core, pc, t))
+                a("%s %d brbc e7,e%d" % (core, pc, t))
     for k in list(range(-20, 20)) + list(range(4194290, 4194320)) + ext:
         a("%s 0 jmp e%d" % (core, k))
         a("%s 0 call e%d" % (core, k))
